@@ -1055,7 +1055,8 @@ def remap_by_types(
                 for f, v in zip(t_node.keys, t_node.values)
             ]
             try:
-                dict_dataclass = make_dataclass("dict_dataclass", fields)
+                # (a key written twice holds its last value)
+                dict_dataclass = make_dataclass("dict_dataclass", list(dict(fields).items()))
             except (TypeError, ValueError, SyntaxError):
                 # Keys that can't be field names (not identifiers, keywords, `self`, etc.): this
                 # is still a fine dictionary, we just have no type information for it.
@@ -1082,7 +1083,8 @@ def remap_by_types(
                     if t_node.attr.lower() == "zip":
                         return t_node
                     raise ValueError(f"Key {key} not found in dict expression!!")
-                value = t_node.value.values[key_index[0]]
+                # (python keeps the last value of a key written twice)
+                value = t_node.value.values[key_index[-1]]
                 self._found_types[node] = self.lookup_type(value)
             elif ((dc := self.lookup_type(t_node.value)) is not None) and is_dataclass(dc):
                 dc_types = get_type_hints(dc)
